@@ -406,6 +406,11 @@ func (q *TransmitLimitedQueue) Prune(maxRetain int) {
 	q.mu.Lock()
 	defer q.mu.Unlock()
 
+	// A queue that was never used (or was just Reset) has nothing to prune.
+	if q.tq == nil {
+		return
+	}
+
 	// Do nothing if queue size is less than the limit
 	for q.tq.Len() > maxRetain {
 		item := q.tq.Max()
